@@ -41,4 +41,69 @@ PROPS = {
         level_note="Trusted: Lean kernel; model=code beyond sampled sequences; btree semantics; float log10 in retransmitLimit; harness/driver.",
         explanation="conservation/invariants by induction over operation lists; get loop by a fuel-indexed induction principle",
     ),
+    "C01": dict(
+        lean_modules=["Swim.Lemmas.Merge", "Swim.Props.C01"],
+        tests="^TestC01$",
+        shards_quick=8,
+        rule='exhaustive table: prior view of n1 (absent/alive/suspect/dead/left x inc 1-3 x aged x timer full) x claim (alive/suspect x2/dead/self-signed dead/push-pull entry in 4 states) x inc 0-4 x address same/other/disallowed/v4-mapped x metadata x version vector x reclaim x allow-list, each executed on a real Memberlist; plus random histories of 1-30 operations; non-trivial = history with at least 3 operations that had an observable effect; distinct = distinct canonical lines',
+        trusted_base=COMMON_TB + ["addresses/metadata abstracted to codes (distinct byte strings = distinct codes, checked by the harness pool)",
+                                  "time abstracted to recent/long-ago classes; Go monotonic clock gives distinct change stamps",
+                                  "net.IPNet.Contains as the allow-list predicate; go-msgpack for decoding queued broadcasts in the hook"],
+        assumptions=["calls are serialised by nodeLock (no concurrency in the model)", "incarnations below 2^32-1 where stated"],
+        level_text='Proof: Lean theorems over the merge-rule model (frame, forward in the precedence order, stale claims are no-ops, regression only by legitimate takeover; per alive/suspect/dead claim, push/pull entries and the timer callback) tied to state.go by an exhaustive small-scope table plus random histories run on the real aliveNode/suspectNode/deadNode/mergeState.',
+        level_note='Trusted: Lean kernel; model = code outside the enumerated scope; abstraction of addresses/metadata/time to codes and classes; harness/driver. History-level monotonicity is stated per step (and per push/pull entry), not yet as a single induction over operation lists.',
+        engine="step-harness",
+    ),
+    "C02": dict(
+        lean_modules=["Swim.Lemmas.Merge", "Swim.Props.C02"],
+        tests="^TestC02$",
+        shards_quick=8,
+        rule='table with the local node as target (own incarnation 1-3, left or not) x the same claim dimensions as C01, plus random histories in which 70% of the claims are about the local node incl. far-ahead and 2^32-2 / 2^32-1 incarnations; non-trivial/distinct as C01',
+        trusted_base=COMMON_TB + ["addresses/metadata abstracted to codes (distinct byte strings = distinct codes, checked by the harness pool)",
+                                  "time abstracted to recent/long-ago classes; Go monotonic clock gives distinct change stamps",
+                                  "net.IPNet.Contains as the allow-list predicate; go-msgpack for decoding queued broadcasts in the hook"],
+        assumptions=["calls are serialised by nodeLock (no concurrency in the model)", "incarnations below 2^32-1 where stated"],
+        level_text='Proof: refuteInc is strictly above every accusation below 2^32-1 (uint32 arithmetic, wrap witness at the excluded point); suspect/dead/alive accusations against the running local node yield a refutation (incarnation above the claim, record carries it, one alive broadcast, score+1) - Lean theorems over the model, tied by table + histories on the real code.',
+        level_note="Trusted: as C01. Interpretation: an alive claim about the local node counts only if it passes the admission filters (version sanity, alive delegate, allow-list) and names the node's own address; a different address is the hijack clause of C08.",
+        engine="step-harness",
+    ),
+    "C07": dict(
+        lean_modules=["Swim.Lemmas.Merge", "Swim.Props.C07"],
+        tests="^TestC07$",
+        shards_quick=8,
+        rule='random histories of 1-40 operations of every kind (claims, merges, timer callbacks incl. stale ones, reaping, UpdateNode, Leave, ageing); the event log of every step is replayed on the Members() view before the step and compared with Members() after it (names, address, metadata); non-trivial/distinct as C01',
+        trusted_base=COMMON_TB + ["addresses/metadata abstracted to codes (distinct byte strings = distinct codes, checked by the harness pool)",
+                                  "time abstracted to recent/long-ago classes; Go monotonic clock gives distinct change stamps",
+                                  "net.IPNet.Contains as the allow-list predicate; go-msgpack for decoding queued broadcasts in the hook"],
+        assumptions=["calls are serialised by nodeLock (no concurrency in the model)", "incarnations below 2^32-1 where stated"],
+        level_text='Proof (partial): event/Members() synchronisation is checked on the implementation for every step of every generated history by an executable predicate, and the model agrees with the implementation on every step; the Lean theorems cover the per-rule event facts. Serialisation of callbacks is a structural fact (Notify* only under nodeLock) checked by the fact extractor.',
+        level_note="Trusted: as C01; Go's sync.RWMutex for non-concurrency of callbacks.",
+        engine="step-harness",
+    ),
+    "C08": dict(
+        lean_modules=["Swim.Lemmas.Merge", "Swim.Props.C08"],
+        tests="^TestC08$",
+        shards_quick=8,
+        rule='the C01 table (address same/other/disallowed/v4-mapped x prior state x aged x reclaim) judged by the hijack/reuse/departure predicate, plus random histories with Leave; non-trivial/distinct as C01',
+        trusted_base=COMMON_TB + ["addresses/metadata abstracted to codes (distinct byte strings = distinct codes, checked by the harness pool)",
+                                  "time abstracted to recent/long-ago classes; Go monotonic clock gives distinct change stamps",
+                                  "net.IPNet.Contains as the allow-list predicate; go-msgpack for decoding queued broadcasts in the hook"],
+        assumptions=["calls are serialised by nodeLock (no concurrency in the model)", "incarnations below 2^32-1 where stated"],
+        level_text="Proof (partial): conflict keeps the address and fires the callback, reclaim rules, departure recorded as left, no resurrection by alive claims no newer than the departure - Lean theorems over the model tied by table + histories. The 'Leave returned nil so a peer was sent the departure' clause is covered by the simulator leg.",
+        level_note='Trusted: as C01. Known findings: second Leave after a timed-out Leave returns nil without sending; tombstone expiry allows resurrection (protocol design).',
+        engine="step-harness",
+    ),
+    "C18": dict(
+        lean_modules=["Swim.Lemmas.Merge", "Swim.Props.C18"],
+        tests="^TestC18$",
+        shards_quick=8,
+        rule='random histories with the allow-list on (10.0.0.0/8, fd00::/8) and half of the claimed addresses drawn from outside / malformed / IPv6 / v4-mapped classes, over direct alive claims, push/pull entries, address changes and name reclaims; every record and join event after every step must carry an allowed address; non-trivial/distinct as C01',
+        trusted_base=COMMON_TB + ["addresses/metadata abstracted to codes (distinct byte strings = distinct codes, checked by the harness pool)",
+                                  "time abstracted to recent/long-ago classes; Go monotonic clock gives distinct change stamps",
+                                  "net.IPNet.Contains as the allow-list predicate; go-msgpack for decoding queued broadcasts in the hook"],
+        assumptions=["calls are serialised by nodeLock (no concurrency in the model)", "incarnations below 2^32-1 where stated"],
+        level_text='Proof: allowed-address invariant of the record table over the merge-rule model for an arbitrary allow predicate, tied by histories on the real code with real net.IPNet lists; the UDP source gate (handleAlive) is exercised by the packet harness leg.',
+        level_note='Trusted: as C01; net.IPNet.Contains.',
+        engine="step-harness",
+    ),
 }
